@@ -16,6 +16,7 @@ import (
 	"sort"
 	"strconv"
 	"strings"
+	"sync"
 	"testing"
 	texttemplate "text/template"
 	"time"
@@ -220,129 +221,129 @@ func bytesOf(ss []string, spare bool) [][]byte {
 
 // ---- strconv ---------------------------------------------------------------------------------------------
 
-func TestC18_Strconv(t *testing.T) {
-	rapid.Check(t, func(t *rapid.T) {
-		in := genTexts(t, 4)
-		base := rapid.SampledFrom([]int{0, 2, 8, 10, 16, 36, 37, 1, -1}).Draw(t, "base")
-		bits := rapid.SampledFrom([]int{0, 8, 16, 32, 64, 65, -1}).Draw(t, "bits")
-		nt := false
-		for _, s := range in {
-			if _, err := strconv.Atoi(s); err != nil {
-				nt = true
-			}
+func TestC18_Strconv(t *testing.T) { rapid.Check(t, propC18Strconv) }
+
+func propC18Strconv(t *rapid.T) {
+	in := genTexts(t, 4)
+	base := rapid.SampledFrom([]int{0, 2, 8, 10, 16, 36, 37, 1, -1}).Draw(t, "base")
+	bits := rapid.SampledFrom([]int{0, 8, 16, 32, 64, 65, -1}).Draw(t, "bits")
+	nt := false
+	for _, s := range in {
+		if _, err := strconv.Atoi(s); err != nil {
+			nt = true
 		}
-		switch rapid.IntRange(0, 12).Draw(t, "which") {
-		case 0:
-			liftCheck(t, "strconv.Atoi", nil, rostrconv.Atoi[string](), in, strconv.Atoi)
-		case 1:
-			liftCheck(t, "strconv.ParseInt", []any{base, bits}, rostrconv.ParseInt[string](base, bits), in, func(s string) (int64, error) { return strconv.ParseInt(s, base, bits) })
-		case 2:
-			fb := rapid.SampledFrom([]int{32, 64, 0, 16}).Draw(t, "fbits")
-			liftCheck(t, "strconv.ParseFloat", []any{fb}, rostrconv.ParseFloat[string](fb), in, func(s string) (float64, error) { return strconv.ParseFloat(s, fb) })
-		case 3:
-			liftCheck(t, "strconv.ParseBool", nil, rostrconv.ParseBool[string](), in, strconv.ParseBool)
-		case 4:
-			liftCheck(t, "strconv.ParseUint", []any{base, bits}, rostrconv.ParseUint[string](base, bits), in, func(s string) (uint64, error) { return strconv.ParseUint(s, base, bits) })
-		case 5:
-			liftCheck(t, "strconv.Quote", nil, rostrconv.Quote(), in, func(s string) (string, error) { return strconv.Quote(s), nil })
-		case 6:
-			liftCheck(t, "strconv.Unquote", nil, rostrconv.Unquote(), in, strconv.Unquote)
-		case 7:
-			xs := rapid.SliceOfN(rapid.Int64(), 0, 4).Draw(t, "ints")
-			b := rapid.IntRange(2, 36).Draw(t, "fbase")
-			liftCheck(t, "strconv.FormatInt", []any{b}, rostrconv.FormatInt[string](b), xs, func(x int64) (string, error) { return strconv.FormatInt(x, b), nil })
-		case 8:
-			xs := rapid.SliceOfN(rapid.Uint64(), 0, 4).Draw(t, "uints")
-			b := rapid.IntRange(2, 36).Draw(t, "fbase")
-			liftCheck(t, "strconv.FormatUint", []any{b}, rostrconv.FormatUint[string](b), xs, func(x uint64) (string, error) { return strconv.FormatUint(x, b), nil })
-		case 9:
-			xs := rapid.SliceOfN(rapid.Float64(), 0, 4).Draw(t, "floats")
-			f := rapid.SampledFrom([]byte{'e', 'E', 'f', 'g', 'G', 'b', 'x', 'X'}).Draw(t, "fmt")
-			p := rapid.IntRange(-1, 20).Draw(t, "prec")
-			bs := rapid.SampledFrom([]int{32, 64}).Draw(t, "fbits")
-			liftCheck(t, "strconv.FormatFloat", []any{string(f), p, bs}, rostrconv.FormatFloat(f, p, bs), xs, func(x float64) (string, error) { return strconv.FormatFloat(x, f, p, bs), nil })
-		case 10:
-			xs := rapid.SliceOfN(rapid.Int(), 0, 4).Draw(t, "ints")
-			liftCheck(t, "strconv.Itoa", nil, rostrconv.Itoa(), xs, func(x int) (string, error) { return strconv.Itoa(x), nil })
-		case 11:
-			xs := rapid.SliceOfN(rapid.Bool(), 0, 4).Draw(t, "bools")
-			liftCheck(t, "strconv.FormatBool", nil, rostrconv.FormatBool(), xs, func(x bool) (string, error) { return strconv.FormatBool(x), nil })
-		case 12:
-			xs := rapid.SliceOfN(rapid.Rune(), 0, 4).Draw(t, "runes")
-			liftCheck(t, "strconv.QuoteRune", nil, rostrconv.QuoteRune(), xs, func(x rune) (string, error) { return strconv.QuoteRune(x), nil })
-		}
-		rt.Case(caseKey("strconv", fmt.Sprintf("%q", in), base, bits), nt, "strconv", func() any { return map[string]any{"inputs": fmt.Sprintf("%q", in), "base": base, "bitSize": bits} })
-	})
+	}
+	switch rapid.IntRange(0, 12).Draw(t, "which") {
+	case 0:
+		liftCheck(t, "strconv.Atoi", nil, rostrconv.Atoi[string](), in, strconv.Atoi)
+	case 1:
+		liftCheck(t, "strconv.ParseInt", []any{base, bits}, rostrconv.ParseInt[string](base, bits), in, func(s string) (int64, error) { return strconv.ParseInt(s, base, bits) })
+	case 2:
+		fb := rapid.SampledFrom([]int{32, 64, 0, 16}).Draw(t, "fbits")
+		liftCheck(t, "strconv.ParseFloat", []any{fb}, rostrconv.ParseFloat[string](fb), in, func(s string) (float64, error) { return strconv.ParseFloat(s, fb) })
+	case 3:
+		liftCheck(t, "strconv.ParseBool", nil, rostrconv.ParseBool[string](), in, strconv.ParseBool)
+	case 4:
+		liftCheck(t, "strconv.ParseUint", []any{base, bits}, rostrconv.ParseUint[string](base, bits), in, func(s string) (uint64, error) { return strconv.ParseUint(s, base, bits) })
+	case 5:
+		liftCheck(t, "strconv.Quote", nil, rostrconv.Quote(), in, func(s string) (string, error) { return strconv.Quote(s), nil })
+	case 6:
+		liftCheck(t, "strconv.Unquote", nil, rostrconv.Unquote(), in, strconv.Unquote)
+	case 7:
+		xs := rapid.SliceOfN(rapid.Int64(), 0, 4).Draw(t, "ints")
+		b := rapid.IntRange(2, 36).Draw(t, "fbase")
+		liftCheck(t, "strconv.FormatInt", []any{b}, rostrconv.FormatInt[string](b), xs, func(x int64) (string, error) { return strconv.FormatInt(x, b), nil })
+	case 8:
+		xs := rapid.SliceOfN(rapid.Uint64(), 0, 4).Draw(t, "uints")
+		b := rapid.IntRange(2, 36).Draw(t, "fbase")
+		liftCheck(t, "strconv.FormatUint", []any{b}, rostrconv.FormatUint[string](b), xs, func(x uint64) (string, error) { return strconv.FormatUint(x, b), nil })
+	case 9:
+		xs := rapid.SliceOfN(rapid.Float64(), 0, 4).Draw(t, "floats")
+		f := rapid.SampledFrom([]byte{'e', 'E', 'f', 'g', 'G', 'b', 'x', 'X'}).Draw(t, "fmt")
+		p := rapid.IntRange(-1, 20).Draw(t, "prec")
+		bs := rapid.SampledFrom([]int{32, 64}).Draw(t, "fbits")
+		liftCheck(t, "strconv.FormatFloat", []any{string(f), p, bs}, rostrconv.FormatFloat(f, p, bs), xs, func(x float64) (string, error) { return strconv.FormatFloat(x, f, p, bs), nil })
+	case 10:
+		xs := rapid.SliceOfN(rapid.Int(), 0, 4).Draw(t, "ints")
+		liftCheck(t, "strconv.Itoa", nil, rostrconv.Itoa(), xs, func(x int) (string, error) { return strconv.Itoa(x), nil })
+	case 11:
+		xs := rapid.SliceOfN(rapid.Bool(), 0, 4).Draw(t, "bools")
+		liftCheck(t, "strconv.FormatBool", nil, rostrconv.FormatBool(), xs, func(x bool) (string, error) { return strconv.FormatBool(x), nil })
+	case 12:
+		xs := rapid.SliceOfN(rapid.Rune(), 0, 4).Draw(t, "runes")
+		liftCheck(t, "strconv.QuoteRune", nil, rostrconv.QuoteRune(), xs, func(x rune) (string, error) { return strconv.QuoteRune(x), nil })
+	}
+	rt.Case(caseKey("strconv", fmt.Sprintf("%q", in), base, bits), nt, "strconv", func() any { return map[string]any{"inputs": fmt.Sprintf("%q", in), "base": base, "bitSize": bits} })
 }
 
 // ---- regexp ----------------------------------------------------------------------------------------------
 
 var c18Patterns = []string{`a+`, `(a)(b)?`, `[0-9]+`, `^\s*$`, `(\w+)@(\w+)\.com`, `x*`, `(?i)hello`, `[^\x00-\x7F]+`, `.`, `(?s).*`, `\b\w`, `(a|b)*c`, ``}
 
-func TestC18_Regexp(t *testing.T) {
-	rapid.Check(t, func(t *rapid.T) {
-		pat := rapid.SampledFrom(c18Patterns).Draw(t, "pattern")
-		re := regexp.MustCompile(pat)
-		n := rapid.SampledFrom([]int{-1, 0, 1, 2, 5}).Draw(t, "n")
-		in := genTexts(t, 4)
-		for i := range in {
-			if rapid.Bool().Draw(t, "seed") {
-				in[i] += rapid.SampledFrom([]string{"aaa", "ab", "123", "bob@example.com", "HeLLo", "日本", "abc"}).Draw(t, "frag")
+func TestC18_Regexp(t *testing.T) { rapid.Check(t, propC18Regexp) }
+
+func propC18Regexp(t *rapid.T) {
+	pat := rapid.SampledFrom(c18Patterns).Draw(t, "pattern")
+	re := regexp.MustCompile(pat)
+	n := rapid.SampledFrom([]int{-1, 0, 1, 2, 5}).Draw(t, "n")
+	in := genTexts(t, 4)
+	for i := range in {
+		if rapid.Bool().Draw(t, "seed") {
+			in[i] += rapid.SampledFrom([]string{"aaa", "ab", "123", "bob@example.com", "HeLLo", "日本", "abc"}).Draw(t, "frag")
+		}
+	}
+	bin := bytesOf(in, true)
+	repl := rapid.SampledFrom([]string{"", "X", "$1", "${1}x", "$$"}).Draw(t, "repl")
+	switch rapid.IntRange(0, 13).Draw(t, "which") {
+	case 0:
+		liftCheck(t, "regexp.FindString", []any{pat}, roregexp.FindString[string](re), in, func(s string) (string, error) { return re.FindString(s), nil })
+	case 1:
+		liftCheck(t, "regexp.Find", []any{pat}, roregexp.Find[[]byte](re), bin, func(s []byte) ([]byte, error) { return re.Find(s), nil })
+	case 2:
+		liftCheck(t, "regexp.FindStringSubmatch", []any{pat}, roregexp.FindStringSubmatch[string](re), in, func(s string) ([]string, error) { return re.FindStringSubmatch(s), nil })
+	case 3:
+		liftCheck(t, "regexp.FindSubmatch", []any{pat}, roregexp.FindSubmatch[[]byte](re), bin, func(s []byte) ([][]byte, error) { return re.FindSubmatch(s), nil })
+	case 4:
+		liftCheck(t, "regexp.FindAllString", []any{pat, n}, roregexp.FindAllString[string](re, n), in, func(s string) ([]string, error) { return re.FindAllString(s, n), nil })
+	case 5:
+		liftCheck(t, "regexp.FindAll", []any{pat, n}, roregexp.FindAll[[]byte](re, n), bin, func(s []byte) ([][]byte, error) { return re.FindAll(s, n), nil })
+	case 6:
+		liftCheck(t, "regexp.FindAllStringSubmatch", []any{pat, n}, roregexp.FindAllStringSubmatch[string](re, n), in, func(s string) ([][]string, error) { return re.FindAllStringSubmatch(s, n), nil })
+	case 7:
+		liftCheck(t, "regexp.FindAllSubmatch", []any{pat, n}, roregexp.FindAllSubmatch[[]byte](re, n), bin, func(s []byte) ([][][]byte, error) { return re.FindAllSubmatch(s, n), nil })
+	case 8:
+		liftCheck(t, "regexp.MatchString", []any{pat}, roregexp.MatchString[string](re), in, func(s string) (bool, error) { return re.MatchString(s), nil })
+	case 9:
+		liftCheck(t, "regexp.Match", []any{pat}, roregexp.Match[[]byte](re), bin, func(s []byte) (bool, error) { return re.Match(s), nil })
+	case 10:
+		liftCheck(t, "regexp.ReplaceAllString", []any{pat, repl}, roregexp.ReplaceAllString[string](re, repl), in, func(s string) (string, error) { return re.ReplaceAllString(s, repl), nil })
+	case 11:
+		liftCheck(t, "regexp.ReplaceAll", []any{pat, repl}, roregexp.ReplaceAll[[]byte](re, []byte(repl)), bin, func(s []byte) ([]byte, error) { return re.ReplaceAll(s, []byte(repl)), nil })
+	case 12:
+		// FilterMatchString keeps exactly the items the pattern matches
+		var want []string
+		for _, s := range in {
+			if re.MatchString(s) {
+				want = append(want, s)
 			}
 		}
-		bin := bytesOf(in, true)
-		repl := rapid.SampledFrom([]string{"", "X", "$1", "${1}x", "$$"}).Draw(t, "repl")
-		switch rapid.IntRange(0, 13).Draw(t, "which") {
-		case 0:
-			liftCheck(t, "regexp.FindString", []any{pat}, roregexp.FindString[string](re), in, func(s string) (string, error) { return re.FindString(s), nil })
-		case 1:
-			liftCheck(t, "regexp.Find", []any{pat}, roregexp.Find[[]byte](re), bin, func(s []byte) ([]byte, error) { return re.Find(s), nil })
-		case 2:
-			liftCheck(t, "regexp.FindStringSubmatch", []any{pat}, roregexp.FindStringSubmatch[string](re), in, func(s string) ([]string, error) { return re.FindStringSubmatch(s), nil })
-		case 3:
-			liftCheck(t, "regexp.FindSubmatch", []any{pat}, roregexp.FindSubmatch[[]byte](re), bin, func(s []byte) ([][]byte, error) { return re.FindSubmatch(s), nil })
-		case 4:
-			liftCheck(t, "regexp.FindAllString", []any{pat, n}, roregexp.FindAllString[string](re, n), in, func(s string) ([]string, error) { return re.FindAllString(s, n), nil })
-		case 5:
-			liftCheck(t, "regexp.FindAll", []any{pat, n}, roregexp.FindAll[[]byte](re, n), bin, func(s []byte) ([][]byte, error) { return re.FindAll(s, n), nil })
-		case 6:
-			liftCheck(t, "regexp.FindAllStringSubmatch", []any{pat, n}, roregexp.FindAllStringSubmatch[string](re, n), in, func(s string) ([][]string, error) { return re.FindAllStringSubmatch(s, n), nil })
-		case 7:
-			liftCheck(t, "regexp.FindAllSubmatch", []any{pat, n}, roregexp.FindAllSubmatch[[]byte](re, n), bin, func(s []byte) ([][][]byte, error) { return re.FindAllSubmatch(s, n), nil })
-		case 8:
-			liftCheck(t, "regexp.MatchString", []any{pat}, roregexp.MatchString[string](re), in, func(s string) (bool, error) { return re.MatchString(s), nil })
-		case 9:
-			liftCheck(t, "regexp.Match", []any{pat}, roregexp.Match[[]byte](re), bin, func(s []byte) (bool, error) { return re.Match(s), nil })
-		case 10:
-			liftCheck(t, "regexp.ReplaceAllString", []any{pat, repl}, roregexp.ReplaceAllString[string](re, repl), in, func(s string) (string, error) { return re.ReplaceAllString(s, repl), nil })
-		case 11:
-			liftCheck(t, "regexp.ReplaceAll", []any{pat, repl}, roregexp.ReplaceAll[[]byte](re, []byte(repl)), bin, func(s []byte) ([]byte, error) { return re.ReplaceAll(s, []byte(repl)), nil })
-		case 12:
-			// FilterMatchString keeps exactly the items the pattern matches
-			var want []string
-			for _, s := range in {
-				if re.MatchString(s) {
-					want = append(want, s)
-				}
-			}
-			got, err := ro.Collect(roregexp.FilterMatchString[string](re)(ro.Just(in...)))
-			if err != nil || !(len(got) == 0 && len(want) == 0) && !reflect.DeepEqual(got, want) {
-				rt.Report(t, rt.Failure{Property: "C18", Check: "lift", Op: "regexp.FilterMatchString", Class: "values-differ-from-wrapped-function", Msg: fmt.Sprintf("pattern %q over %q: got %q want %q (%v)", pat, in, got, want, err), Case: c18Case{Op: "regexp.FilterMatchString", Params: []any{pat}, Inputs: []any{fmt.Sprintf("%q", in)}}})
-			}
-		case 13:
-			var want [][]byte
-			for _, s := range bin {
-				if re.Match(s) {
-					want = append(want, s)
-				}
-			}
-			got, err := ro.Collect(roregexp.FilterMatch[[]byte](re)(ro.Just(bin...)))
-			if err != nil || !(len(got) == 0 && len(want) == 0) && !reflect.DeepEqual(got, want) {
-				rt.Report(t, rt.Failure{Property: "C18", Check: "lift", Op: "regexp.FilterMatch", Class: "values-differ-from-wrapped-function", Msg: fmt.Sprintf("pattern %q over %q: got %q want %q (%v)", pat, in, got, want, err), Case: c18Case{Op: "regexp.FilterMatch", Params: []any{pat}, Inputs: []any{fmt.Sprintf("%q", in)}}})
+		got, err := ro.Collect(roregexp.FilterMatchString[string](re)(ro.Just(in...)))
+		if err != nil || !(len(got) == 0 && len(want) == 0) && !reflect.DeepEqual(got, want) {
+			rt.Report(t, rt.Failure{Property: "C18", Check: "lift", Op: "regexp.FilterMatchString", Class: "values-differ-from-wrapped-function", Msg: fmt.Sprintf("pattern %q over %q: got %q want %q (%v)", pat, in, got, want, err), Case: c18Case{Op: "regexp.FilterMatchString", Params: []any{pat}, Inputs: []any{fmt.Sprintf("%q", in)}}})
+		}
+	case 13:
+		var want [][]byte
+		for _, s := range bin {
+			if re.Match(s) {
+				want = append(want, s)
 			}
 		}
-		rt.Case(caseKey("regexp", pat, n, fmt.Sprintf("%q", in), repl), len(in) > 0, "regexp", func() any { return map[string]any{"pattern": pat, "n": n, "inputs": fmt.Sprintf("%q", in)} })
-	})
+		got, err := ro.Collect(roregexp.FilterMatch[[]byte](re)(ro.Just(bin...)))
+		if err != nil || !(len(got) == 0 && len(want) == 0) && !reflect.DeepEqual(got, want) {
+			rt.Report(t, rt.Failure{Property: "C18", Check: "lift", Op: "regexp.FilterMatch", Class: "values-differ-from-wrapped-function", Msg: fmt.Sprintf("pattern %q over %q: got %q want %q (%v)", pat, in, got, want, err), Case: c18Case{Op: "regexp.FilterMatch", Params: []any{pat}, Inputs: []any{fmt.Sprintf("%q", in)}}})
+		}
+	}
+	rt.Case(caseKey("regexp", pat, n, fmt.Sprintf("%q", in), repl), len(in) > 0, "regexp", func() any { return map[string]any{"pattern": pat, "n": n, "inputs": fmt.Sprintf("%q", in)} })
 }
 
 // ---- strings / bytes text helpers: the two flavours agree on the same text ---------------------------------------
@@ -454,17 +455,17 @@ func c18RunText(t rt.TB, c c18Text) (nonASCII bool) {
 	return nonASCII
 }
 
-func TestC18_TextHelpers(t *testing.T) {
-	rapid.Check(t, func(t *rapid.T) {
-		in := genTexts(t, 4)
-		c := c18Text{Helper: rapid.SampledFrom([]string{"CamelCase", "Capitalize", "KebabCase", "PascalCase", "SnakeCase", "Ellipsis", "Words"}).Draw(t, "helper"), Length: rapid.IntRange(-1, 12).Draw(t, "length")}
-		for _, s := range in {
-			c.Inputs = append(c.Inputs, []byte(s))
-		}
-		nonASCII := c18RunText(t, c)
-		rt.Case(caseKey("text", c.Helper, c.Length, fmt.Sprintf("%q", in)), nonASCII || len(in) > 1, "text:"+c.Helper, func() any {
-			return map[string]any{"helper": c.Helper, "length": c.Length, "inputs": fmt.Sprintf("%q", in)}
-		})
+func TestC18_TextHelpers(t *testing.T) { rapid.Check(t, propC18TextHelpers) }
+
+func propC18TextHelpers(t *rapid.T) {
+	in := genTexts(t, 4)
+	c := c18Text{Helper: rapid.SampledFrom([]string{"CamelCase", "Capitalize", "KebabCase", "PascalCase", "SnakeCase", "Ellipsis", "Words"}).Draw(t, "helper"), Length: rapid.IntRange(-1, 12).Draw(t, "length")}
+	for _, s := range in {
+		c.Inputs = append(c.Inputs, []byte(s))
+	}
+	nonASCII := c18RunText(t, c)
+	rt.Case(caseKey("text", c.Helper, c.Length, fmt.Sprintf("%q", in)), nonASCII || len(in) > 1, "text:"+c.Helper, func() any {
+		return map[string]any{"helper": c.Helper, "length": c.Length, "inputs": fmt.Sprintf("%q", in)}
 	})
 }
 
@@ -477,7 +478,9 @@ type tplData struct {
 	M     map[string]int
 }
 
-func TestC18_TimeTemplateEncodings(t *testing.T) {
+func TestC18_TimeTemplateEncodings(t *testing.T) { rapid.Check(t, propC18TimeTemplateEncodings) }
+
+var c18TimeSetup = sync.OnceValues(func() ([]string, []*time.Location) {
 	layouts := []string{time.RFC3339, time.RFC1123, "2006-01-02", "15:04:05", time.Kitchen, "Jan _2 2006", "", "bogus"}
 	locs := []*time.Location{time.UTC, time.FixedZone("X", 3*3600+1800), time.FixedZone("W", -11*3600)}
 	// locations with daylight saving (time/tzdata is linked in): days that are 23,
@@ -487,174 +490,177 @@ func TestC18_TimeTemplateEncodings(t *testing.T) {
 			locs = append(locs, l)
 		}
 	}
-	rapid.Check(t, func(t *rapid.T) {
-		which := rapid.IntRange(0, 10).Draw(t, "which")
-		if which >= 8 {
-			which = 2 // templates get a larger share
+	return layouts, locs
+})
+
+func propC18TimeTemplateEncodings(t *rapid.T) {
+	layouts, locs := c18TimeSetup()
+	which := rapid.IntRange(0, 10).Draw(t, "which")
+	if which >= 8 {
+		which = 2 // templates get a larger share
+	}
+	switch which {
+	case 0: // time parse
+		layout := rapid.SampledFrom(layouts).Draw(t, "layout")
+		in := genTexts(t, 3)
+		for i := range in {
+			if rapid.Bool().Draw(t, "valid") {
+				in[i] = time.Unix(rapid.Int64Range(-1e10, 1e10).Draw(t, "ts"), 0).UTC().Format(layout)
+			}
 		}
-		switch which {
-		case 0: // time parse
-			layout := rapid.SampledFrom(layouts).Draw(t, "layout")
-			in := genTexts(t, 3)
-			for i := range in {
-				if rapid.Bool().Draw(t, "valid") {
-					in[i] = time.Unix(rapid.Int64Range(-1e10, 1e10).Draw(t, "ts"), 0).UTC().Format(layout)
+		liftCheck(t, "time.Parse", []any{layout}, rotime.Parse[string](layout), in, func(s string) (time.Time, error) { return time.Parse(layout, s) })
+		loc := rapid.SampledFrom(locs).Draw(t, "loc")
+		liftCheck(t, "time.ParseInLocation", []any{layout, loc.String()}, rotime.ParseInLocation[string](layout, loc), in, func(s string) (time.Time, error) { return time.ParseInLocation(layout, s, loc) })
+		rt.Case(caseKey("time.parse", layout, fmt.Sprintf("%q", in)), true, "time", func() any { return map[string]any{"layout": layout, "inputs": fmt.Sprintf("%q", in)} })
+	case 1: // time arithmetic / formatting
+		n := rapid.IntRange(0, 3).Draw(t, "n")
+		ts := make([]time.Time, n)
+		for i := range ts {
+			ts[i] = time.Unix(rapid.Int64Range(-6e10, 6e10).Draw(t, "ts"), rapid.Int64Range(0, 999999999).Draw(t, "ns")).In(rapid.SampledFrom(locs).Draw(t, "loc"))
+			if rapid.Bool().Draw(t, "nearTransition") {
+				// a moment within a day of the next change of the zone offset, if any
+				base := time.Unix(rapid.Int64Range(0, 2e9).Draw(t, "base"), 0).In(ts[i].Location())
+				if _, end := base.ZoneBounds(); !end.IsZero() {
+					ts[i] = end.Add(time.Duration(rapid.Int64Range(-26*3600, 26*3600).Draw(t, "offsetSeconds")) * time.Second)
 				}
 			}
-			liftCheck(t, "time.Parse", []any{layout}, rotime.Parse[string](layout), in, func(s string) (time.Time, error) { return time.Parse(layout, s) })
-			loc := rapid.SampledFrom(locs).Draw(t, "loc")
-			liftCheck(t, "time.ParseInLocation", []any{layout, loc.String()}, rotime.ParseInLocation[string](layout, loc), in, func(s string) (time.Time, error) { return time.ParseInLocation(layout, s, loc) })
-			rt.Case(caseKey("time.parse", layout, fmt.Sprintf("%q", in)), true, "time", func() any { return map[string]any{"layout": layout, "inputs": fmt.Sprintf("%q", in)} })
-		case 1: // time arithmetic / formatting
-			n := rapid.IntRange(0, 3).Draw(t, "n")
-			ts := make([]time.Time, n)
-			for i := range ts {
-				ts[i] = time.Unix(rapid.Int64Range(-6e10, 6e10).Draw(t, "ts"), rapid.Int64Range(0, 999999999).Draw(t, "ns")).In(rapid.SampledFrom(locs).Draw(t, "loc"))
-				if rapid.Bool().Draw(t, "nearTransition") {
-					// a moment within a day of the next change of the zone offset, if any
-					base := time.Unix(rapid.Int64Range(0, 2e9).Draw(t, "base"), 0).In(ts[i].Location())
-					if _, end := base.ZoneBounds(); !end.IsZero() {
-						ts[i] = end.Add(time.Duration(rapid.Int64Range(-26*3600, 26*3600).Draw(t, "offsetSeconds")) * time.Second)
-					}
-				}
-			}
-			d := time.Duration(rapid.Int64Range(-1e15, 1e15).Draw(t, "d"))
-			y, m, dd := rapid.IntRange(-3, 3).Draw(t, "y"), rapid.IntRange(-14, 14).Draw(t, "m"), rapid.IntRange(-40, 40).Draw(t, "dd")
-			layout := rapid.SampledFrom(layouts).Draw(t, "layout")
-			loc := rapid.SampledFrom(locs).Draw(t, "loc")
-			liftCheck(t, "time.Add", []any{d.String()}, rotime.Add(d), ts, func(x time.Time) (time.Time, error) { return x.Add(d), nil })
-			liftCheck(t, "time.AddDate", []any{y, m, dd}, rotime.AddDate(y, m, dd), ts, func(x time.Time) (time.Time, error) { return x.AddDate(y, m, dd), nil })
-			liftCheck(t, "time.Format", []any{layout}, rotime.Format(layout), ts, func(x time.Time) (string, error) { return x.Format(layout), nil })
-			liftCheck(t, "time.In", []any{loc.String()}, rotime.In(loc), ts, func(x time.Time) (time.Time, error) { return x.In(loc), nil })
-			liftCheck(t, "time.StartOfDay", nil, rotime.StartOfDay(), ts, func(x time.Time) (time.Time, error) {
-				return time.Date(x.Year(), x.Month(), x.Day(), 0, 0, 0, 0, x.Location()), nil
-			})
-			rt.Case(caseKey("time.arith", fmt.Sprint(ts), d, y, m, dd, layout), n > 0, "time", func() any { return map[string]any{"times": fmt.Sprint(ts), "d": d.String()} })
-		case 2: // templates
-			tpls := []string{"order for {{.Name}}: first item is {{index .Items 0}}", "A{{.N}}B{{index .Items 2}}C", "hello {{.Name}}", "{{.N}} items: {{range .Items}}[{{.}}]{{end}}", "{{.Missing}}", "{{index .Items 5}}", "<b>{{.Name}}</b> & {{len .M}}", "{{if gt .N 1}}many{{else}}few{{end}}", "{{.M.k}}"}
-			tpl := rapid.SampledFrom(tpls).Draw(t, "tpl")
-			n := rapid.IntRange(0, 3).Draw(t, "n")
-			in := make([]tplData, n)
-			for i := range in {
-				in[i] = tplData{Name: genText(t, "name"), N: rapid.IntRange(0, 3).Draw(t, "N"), Items: rapid.SliceOfN(rapid.StringMatching(`[a-z<>&"]{0,4}`), 0, 3).Draw(t, "items"), M: map[string]int{"k": i}}
-			}
-			tt := texttemplate.Must(texttemplate.New(tpl).Parse(tpl))
-			ht := htmltemplate.Must(htmltemplate.New(tpl).Parse(tpl))
-			liftCheck(t, "template.TextTemplate", []any{tpl}, rotemplate.TextTemplate[tplData](tpl), in, func(x tplData) (string, error) {
-				var b bytes.Buffer
-				err := tt.Execute(&b, x)
-				return b.String(), err
-			})
-			liftCheck(t, "template.HTMLTemplate", []any{tpl}, rotemplate.HTMLTemplate[tplData](tpl), in, func(x tplData) (string, error) {
-				var b bytes.Buffer
-				err := ht.Execute(&b, x)
-				return b.String(), err
-			})
-			// one operator value used for a second stream: a failed render must not leak into it
-			op := rotemplate.TextTemplate[tplData](tpl)
-			ro.Collect(op(ro.Just(in...)))
-			liftCheck(t, "template.TextTemplate(reused)", []any{tpl}, op, in, func(x tplData) (string, error) {
-				var b bytes.Buffer
-				err := tt.Execute(&b, x)
-				return b.String(), err
-			})
-			rt.Case(caseKey("template", tpl, fmt.Sprint(in)), n > 0, "template", func() any { return map[string]any{"template": tpl, "inputs": fmt.Sprint(in)} })
-		case 3: // base64
-			encs := map[string]*base64.Encoding{"Std": base64.StdEncoding, "URL": base64.URLEncoding, "RawStd": base64.RawStdEncoding, "RawURL": base64.RawURLEncoding}
-			name := rapid.SampledFrom([]string{"Std", "URL", "RawStd", "RawURL"}).Draw(t, "enc")
-			enc := encs[name]
-			raw := bytesOf(genTexts(t, 4), true)
-			liftCheck(t, "base64.Encode", []any{name}, robase64.Encode[[]byte](enc), raw, func(b []byte) (string, error) { return enc.EncodeToString(b), nil })
-			texts := genTexts(t, 3)
-			for i := range texts {
-				if rapid.Bool().Draw(t, "valid") {
-					texts[i] = encs[rapid.SampledFrom([]string{"Std", "URL", "RawStd", "RawURL"}).Draw(t, "enc2")].EncodeToString([]byte(texts[i]))
-				}
-			}
-			liftCheck(t, "base64.Decode", []any{name}, robase64.Decode[string](enc), texts, func(s string) ([]byte, error) { return enc.DecodeString(s) })
-			// round trip
-			got, err := ro.Collect(ro.Pipe2(ro.Just(raw...), robase64.Encode[[]byte](enc), robase64.Decode[string](enc)))
-			if err != nil || len(got) != len(raw) {
-				rt.Report(t, rt.Failure{Property: "C18", Check: "lift", Op: "base64.roundtrip", Class: "round-trip-not-identity", Msg: fmt.Sprintf("%s: %q -> %q (%v)", name, raw, got, err), Case: c18Case{Op: "base64.roundtrip", Params: []any{name}}})
-			} else {
-				for i := range raw {
-					if !bytes.Equal(raw[i], got[i]) {
-						rt.Report(t, rt.Failure{Property: "C18", Check: "lift", Op: "base64.roundtrip", Class: "round-trip-not-identity", Msg: fmt.Sprintf("%s: %q -> %q", name, raw[i], got[i]), Case: c18Case{Op: "base64.roundtrip", Params: []any{name}}})
-					}
-				}
-			}
-			rt.Case(caseKey("base64", name, fmt.Sprintf("%q %q", raw, texts)), true, "base64", func() any {
-				return map[string]any{"encoding": name, "raw": fmt.Sprintf("%q", raw), "texts": fmt.Sprintf("%q", texts)}
-			})
-		case 4: // json
-			n := rapid.IntRange(0, 3).Draw(t, "n")
-			in := make([]tplData, n)
-			for i := range in {
-				in[i] = tplData{Name: genText(t, "name"), N: rapid.Int().Draw(t, "N"), Items: rapid.SliceOfN(rapid.String(), 0, 3).Draw(t, "items")}
-			}
-			liftCheck(t, "json.Marshal", nil, rojson.Marshal[tplData](), in, func(x tplData) ([]byte, error) { return json.Marshal(x) })
-			fl := rapid.SliceOfN(rapid.Float64(), 0, 3).Draw(t, "floats")
-			if rapid.Bool().Draw(t, "nan") {
-				fl = append(fl, nan())
-			}
-			liftCheck(t, "json.Marshal(float)", nil, rojson.Marshal[float64](), fl, func(x float64) ([]byte, error) { return json.Marshal(x) })
-			docs := bytesOf(genTexts(t, 3), false)
-			for i := range docs {
-				if rapid.Bool().Draw(t, "valid") {
-					docs[i], _ = json.Marshal(tplData{Name: string(docs[i]), N: i})
-				}
-			}
-			liftCheck(t, "json.Unmarshal", nil, rojson.Unmarshal[tplData](), docs, func(b []byte) (tplData, error) {
-				var v tplData
-				err := json.Unmarshal(b, &v)
-				return v, err
-			})
-			rt.Case(caseKey("json", fmt.Sprint(in), fmt.Sprintf("%q", docs)), true, "json", func() any { return map[string]any{"values": fmt.Sprint(in), "docs": fmt.Sprintf("%q", docs)} })
-		case 5: // gob round trip
-			n := rapid.IntRange(0, 3).Draw(t, "n")
-			in := make([]tplData, n)
-			for i := range in {
-				in[i] = tplData{Name: genText(t, "name"), N: rapid.Int().Draw(t, "N"), Items: rapid.SliceOfN(rapid.String(), 1, 3).Draw(t, "items"), M: map[string]int{"a": i}}
-			}
-			got, err := ro.Collect(ro.Pipe2(ro.Just(in...), rogob.Encode[tplData](), rogob.Decode[tplData]()))
-			if err != nil || !(len(got) == 0 && len(in) == 0) && !reflect.DeepEqual(got, in) {
-				rt.Report(t, rt.Failure{Property: "C18", Check: "lift", Op: "gob.roundtrip", Class: "round-trip-not-identity", Msg: fmt.Sprintf("%v -> %v (%v)", in, got, err), Case: c18Case{Op: "gob.roundtrip", Inputs: []any{fmt.Sprint(in)}}})
-			}
-			garbage := bytesOf(genTexts(t, 3), false)
-			liftCheck(t, "gob.Decode", nil, rogob.Decode[tplData](), garbage, func(b []byte) (tplData, error) {
-				var v tplData
-				err := gob.NewDecoder(bytes.NewReader(b)).Decode(&v)
-				return v, err
-			})
-			rt.Case(caseKey("gob", fmt.Sprint(in), fmt.Sprintf("%q", garbage)), true, "gob", func() any { return map[string]any{"values": fmt.Sprint(in)} })
-		default: // csv write -> read
-			width := rapid.IntRange(1, 3).Draw(t, "width")
-			rows := rapid.SliceOfN(rapid.SliceOfN(rapid.SampledFrom([]string{"a", "", "x,y", "q\"uote", "line\nbreak", " sp ", "日本", "1"}), width, width), 0, 4).Draw(t, "rows")
-			var buf bytes.Buffer
-			w := csv.NewWriter(&buf)
-			counts, err := ro.Collect(rocsv.NewCSVWriter(w)(ro.Just(rows...)))
-			w.Flush()
-			back, err2 := ro.Collect(rocsv.NewCSVReader(csv.NewReader(bytes.NewReader(buf.Bytes()))))
-			want, _ := csv.NewReader(bytes.NewReader(buf.Bytes())).ReadAll()
-			if err != nil || err2 != nil || !(len(back) == 0 && len(want) == 0) && !reflect.DeepEqual(back, want) {
-				rt.Report(t, rt.Failure{Property: "C18", Check: "lift", Op: "csv.roundtrip", Class: "round-trip-not-identity", Msg: fmt.Sprintf("rows %q written (%v, %v) as %q, read back %q (%v), encoding/csv reads %q", rows, counts, err, buf.String(), back, err2, want), Case: c18Case{Op: "csv.roundtrip", Inputs: []any{fmt.Sprintf("%q", rows)}}})
-			}
-			// rows whose field count is uniform must come back unchanged
-			uniform := true
-			for _, r := range rows {
-				if len(r) != len(rows[0]) {
-					uniform = false
-				}
-				if len(r) == 1 && r[0] == "" {
-					uniform = false // a single empty field is written as an empty line, which csv readers skip
-				}
-			}
-			if uniform && len(rows) > 0 && !reflect.DeepEqual(back, rows) {
-				rt.Report(t, rt.Failure{Property: "C18", Check: "lift", Op: "csv.roundtrip", Class: "round-trip-not-identity", Msg: fmt.Sprintf("rows %q came back as %q", rows, back), Case: c18Case{Op: "csv.roundtrip", Inputs: []any{fmt.Sprintf("%q", rows)}}})
-			}
-			rt.Case(caseKey("csv", fmt.Sprintf("%q", rows)), len(rows) > 0, "csv", func() any { return map[string]any{"rows": fmt.Sprintf("%q", rows)} })
 		}
-	})
+		d := time.Duration(rapid.Int64Range(-1e15, 1e15).Draw(t, "d"))
+		y, m, dd := rapid.IntRange(-3, 3).Draw(t, "y"), rapid.IntRange(-14, 14).Draw(t, "m"), rapid.IntRange(-40, 40).Draw(t, "dd")
+		layout := rapid.SampledFrom(layouts).Draw(t, "layout")
+		loc := rapid.SampledFrom(locs).Draw(t, "loc")
+		liftCheck(t, "time.Add", []any{d.String()}, rotime.Add(d), ts, func(x time.Time) (time.Time, error) { return x.Add(d), nil })
+		liftCheck(t, "time.AddDate", []any{y, m, dd}, rotime.AddDate(y, m, dd), ts, func(x time.Time) (time.Time, error) { return x.AddDate(y, m, dd), nil })
+		liftCheck(t, "time.Format", []any{layout}, rotime.Format(layout), ts, func(x time.Time) (string, error) { return x.Format(layout), nil })
+		liftCheck(t, "time.In", []any{loc.String()}, rotime.In(loc), ts, func(x time.Time) (time.Time, error) { return x.In(loc), nil })
+		liftCheck(t, "time.StartOfDay", nil, rotime.StartOfDay(), ts, func(x time.Time) (time.Time, error) {
+			return time.Date(x.Year(), x.Month(), x.Day(), 0, 0, 0, 0, x.Location()), nil
+		})
+		rt.Case(caseKey("time.arith", fmt.Sprint(ts), d, y, m, dd, layout), n > 0, "time", func() any { return map[string]any{"times": fmt.Sprint(ts), "d": d.String()} })
+	case 2: // templates
+		tpls := []string{"order for {{.Name}}: first item is {{index .Items 0}}", "A{{.N}}B{{index .Items 2}}C", "hello {{.Name}}", "{{.N}} items: {{range .Items}}[{{.}}]{{end}}", "{{.Missing}}", "{{index .Items 5}}", "<b>{{.Name}}</b> & {{len .M}}", "{{if gt .N 1}}many{{else}}few{{end}}", "{{.M.k}}"}
+		tpl := rapid.SampledFrom(tpls).Draw(t, "tpl")
+		n := rapid.IntRange(0, 3).Draw(t, "n")
+		in := make([]tplData, n)
+		for i := range in {
+			in[i] = tplData{Name: genText(t, "name"), N: rapid.IntRange(0, 3).Draw(t, "N"), Items: rapid.SliceOfN(rapid.StringMatching(`[a-z<>&"]{0,4}`), 0, 3).Draw(t, "items"), M: map[string]int{"k": i}}
+		}
+		tt := texttemplate.Must(texttemplate.New(tpl).Parse(tpl))
+		ht := htmltemplate.Must(htmltemplate.New(tpl).Parse(tpl))
+		liftCheck(t, "template.TextTemplate", []any{tpl}, rotemplate.TextTemplate[tplData](tpl), in, func(x tplData) (string, error) {
+			var b bytes.Buffer
+			err := tt.Execute(&b, x)
+			return b.String(), err
+		})
+		liftCheck(t, "template.HTMLTemplate", []any{tpl}, rotemplate.HTMLTemplate[tplData](tpl), in, func(x tplData) (string, error) {
+			var b bytes.Buffer
+			err := ht.Execute(&b, x)
+			return b.String(), err
+		})
+		// one operator value used for a second stream: a failed render must not leak into it
+		op := rotemplate.TextTemplate[tplData](tpl)
+		ro.Collect(op(ro.Just(in...)))
+		liftCheck(t, "template.TextTemplate(reused)", []any{tpl}, op, in, func(x tplData) (string, error) {
+			var b bytes.Buffer
+			err := tt.Execute(&b, x)
+			return b.String(), err
+		})
+		rt.Case(caseKey("template", tpl, fmt.Sprint(in)), n > 0, "template", func() any { return map[string]any{"template": tpl, "inputs": fmt.Sprint(in)} })
+	case 3: // base64
+		encs := map[string]*base64.Encoding{"Std": base64.StdEncoding, "URL": base64.URLEncoding, "RawStd": base64.RawStdEncoding, "RawURL": base64.RawURLEncoding}
+		name := rapid.SampledFrom([]string{"Std", "URL", "RawStd", "RawURL"}).Draw(t, "enc")
+		enc := encs[name]
+		raw := bytesOf(genTexts(t, 4), true)
+		liftCheck(t, "base64.Encode", []any{name}, robase64.Encode[[]byte](enc), raw, func(b []byte) (string, error) { return enc.EncodeToString(b), nil })
+		texts := genTexts(t, 3)
+		for i := range texts {
+			if rapid.Bool().Draw(t, "valid") {
+				texts[i] = encs[rapid.SampledFrom([]string{"Std", "URL", "RawStd", "RawURL"}).Draw(t, "enc2")].EncodeToString([]byte(texts[i]))
+			}
+		}
+		liftCheck(t, "base64.Decode", []any{name}, robase64.Decode[string](enc), texts, func(s string) ([]byte, error) { return enc.DecodeString(s) })
+		// round trip
+		got, err := ro.Collect(ro.Pipe2(ro.Just(raw...), robase64.Encode[[]byte](enc), robase64.Decode[string](enc)))
+		if err != nil || len(got) != len(raw) {
+			rt.Report(t, rt.Failure{Property: "C18", Check: "lift", Op: "base64.roundtrip", Class: "round-trip-not-identity", Msg: fmt.Sprintf("%s: %q -> %q (%v)", name, raw, got, err), Case: c18Case{Op: "base64.roundtrip", Params: []any{name}}})
+		} else {
+			for i := range raw {
+				if !bytes.Equal(raw[i], got[i]) {
+					rt.Report(t, rt.Failure{Property: "C18", Check: "lift", Op: "base64.roundtrip", Class: "round-trip-not-identity", Msg: fmt.Sprintf("%s: %q -> %q", name, raw[i], got[i]), Case: c18Case{Op: "base64.roundtrip", Params: []any{name}}})
+				}
+			}
+		}
+		rt.Case(caseKey("base64", name, fmt.Sprintf("%q %q", raw, texts)), true, "base64", func() any {
+			return map[string]any{"encoding": name, "raw": fmt.Sprintf("%q", raw), "texts": fmt.Sprintf("%q", texts)}
+		})
+	case 4: // json
+		n := rapid.IntRange(0, 3).Draw(t, "n")
+		in := make([]tplData, n)
+		for i := range in {
+			in[i] = tplData{Name: genText(t, "name"), N: rapid.Int().Draw(t, "N"), Items: rapid.SliceOfN(rapid.String(), 0, 3).Draw(t, "items")}
+		}
+		liftCheck(t, "json.Marshal", nil, rojson.Marshal[tplData](), in, func(x tplData) ([]byte, error) { return json.Marshal(x) })
+		fl := rapid.SliceOfN(rapid.Float64(), 0, 3).Draw(t, "floats")
+		if rapid.Bool().Draw(t, "nan") {
+			fl = append(fl, nan())
+		}
+		liftCheck(t, "json.Marshal(float)", nil, rojson.Marshal[float64](), fl, func(x float64) ([]byte, error) { return json.Marshal(x) })
+		docs := bytesOf(genTexts(t, 3), false)
+		for i := range docs {
+			if rapid.Bool().Draw(t, "valid") {
+				docs[i], _ = json.Marshal(tplData{Name: string(docs[i]), N: i})
+			}
+		}
+		liftCheck(t, "json.Unmarshal", nil, rojson.Unmarshal[tplData](), docs, func(b []byte) (tplData, error) {
+			var v tplData
+			err := json.Unmarshal(b, &v)
+			return v, err
+		})
+		rt.Case(caseKey("json", fmt.Sprint(in), fmt.Sprintf("%q", docs)), true, "json", func() any { return map[string]any{"values": fmt.Sprint(in), "docs": fmt.Sprintf("%q", docs)} })
+	case 5: // gob round trip
+		n := rapid.IntRange(0, 3).Draw(t, "n")
+		in := make([]tplData, n)
+		for i := range in {
+			in[i] = tplData{Name: genText(t, "name"), N: rapid.Int().Draw(t, "N"), Items: rapid.SliceOfN(rapid.String(), 1, 3).Draw(t, "items"), M: map[string]int{"a": i}}
+		}
+		got, err := ro.Collect(ro.Pipe2(ro.Just(in...), rogob.Encode[tplData](), rogob.Decode[tplData]()))
+		if err != nil || !(len(got) == 0 && len(in) == 0) && !reflect.DeepEqual(got, in) {
+			rt.Report(t, rt.Failure{Property: "C18", Check: "lift", Op: "gob.roundtrip", Class: "round-trip-not-identity", Msg: fmt.Sprintf("%v -> %v (%v)", in, got, err), Case: c18Case{Op: "gob.roundtrip", Inputs: []any{fmt.Sprint(in)}}})
+		}
+		garbage := bytesOf(genTexts(t, 3), false)
+		liftCheck(t, "gob.Decode", nil, rogob.Decode[tplData](), garbage, func(b []byte) (tplData, error) {
+			var v tplData
+			err := gob.NewDecoder(bytes.NewReader(b)).Decode(&v)
+			return v, err
+		})
+		rt.Case(caseKey("gob", fmt.Sprint(in), fmt.Sprintf("%q", garbage)), true, "gob", func() any { return map[string]any{"values": fmt.Sprint(in)} })
+	default: // csv write -> read
+		width := rapid.IntRange(1, 3).Draw(t, "width")
+		rows := rapid.SliceOfN(rapid.SliceOfN(rapid.SampledFrom([]string{"a", "", "x,y", "q\"uote", "line\nbreak", " sp ", "日本", "1"}), width, width), 0, 4).Draw(t, "rows")
+		var buf bytes.Buffer
+		w := csv.NewWriter(&buf)
+		counts, err := ro.Collect(rocsv.NewCSVWriter(w)(ro.Just(rows...)))
+		w.Flush()
+		back, err2 := ro.Collect(rocsv.NewCSVReader(csv.NewReader(bytes.NewReader(buf.Bytes()))))
+		want, _ := csv.NewReader(bytes.NewReader(buf.Bytes())).ReadAll()
+		if err != nil || err2 != nil || !(len(back) == 0 && len(want) == 0) && !reflect.DeepEqual(back, want) {
+			rt.Report(t, rt.Failure{Property: "C18", Check: "lift", Op: "csv.roundtrip", Class: "round-trip-not-identity", Msg: fmt.Sprintf("rows %q written (%v, %v) as %q, read back %q (%v), encoding/csv reads %q", rows, counts, err, buf.String(), back, err2, want), Case: c18Case{Op: "csv.roundtrip", Inputs: []any{fmt.Sprintf("%q", rows)}}})
+		}
+		// rows whose field count is uniform must come back unchanged
+		uniform := true
+		for _, r := range rows {
+			if len(r) != len(rows[0]) {
+				uniform = false
+			}
+			if len(r) == 1 && r[0] == "" {
+				uniform = false // a single empty field is written as an empty line, which csv readers skip
+			}
+		}
+		if uniform && len(rows) > 0 && !reflect.DeepEqual(back, rows) {
+			rt.Report(t, rt.Failure{Property: "C18", Check: "lift", Op: "csv.roundtrip", Class: "round-trip-not-identity", Msg: fmt.Sprintf("rows %q came back as %q", rows, back), Case: c18Case{Op: "csv.roundtrip", Inputs: []any{fmt.Sprintf("%q", rows)}}})
+		}
+		rt.Case(caseKey("csv", fmt.Sprintf("%q", rows)), len(rows) > 0, "csv", func() any { return map[string]any{"rows": fmt.Sprintf("%q", rows)} })
+	}
 }
 
 func nan() float64 { z := 0.0; return z / z }
@@ -666,66 +672,66 @@ type keyed struct {
 	ID int
 }
 
-func TestC18_Sort(t *testing.T) {
-	rapid.Check(t, func(t *rapid.T) {
-		n := rapid.SampledFrom([]int{0, 1, 2, 5, 11, 12, 13, 20, 50, 200}).Draw(t, "n")
-		keys := rapid.IntRange(1, 4).Draw(t, "distinctKeys")
-		in := make([]keyed, n)
-		for i := range in {
-			in[i] = keyed{K: rapid.IntRange(0, keys-1).Draw(t, "k"), ID: i}
+func TestC18_Sort(t *testing.T) { rapid.Check(t, propC18Sort) }
+
+func propC18Sort(t *rapid.T) {
+	n := rapid.SampledFrom([]int{0, 1, 2, 5, 11, 12, 13, 20, 50, 200}).Draw(t, "n")
+	keys := rapid.IntRange(1, 4).Draw(t, "distinctKeys")
+	in := make([]keyed, n)
+	for i := range in {
+		in[i] = keyed{K: rapid.IntRange(0, keys-1).Draw(t, "k"), ID: i}
+	}
+	cmp := func(a, b keyed) int { return a.K - b.K }
+	for _, which := range []string{"SortFunc", "SortStableFunc"} {
+		var op func(ro.Observable[keyed]) ro.Observable[keyed]
+		if which == "SortFunc" {
+			op = rosort.SortFunc(cmp)
+		} else {
+			op = rosort.SortStableFunc(cmp)
 		}
-		cmp := func(a, b keyed) int { return a.K - b.K }
-		for _, which := range []string{"SortFunc", "SortStableFunc"} {
-			var op func(ro.Observable[keyed]) ro.Observable[keyed]
-			if which == "SortFunc" {
-				op = rosort.SortFunc(cmp)
-			} else {
-				op = rosort.SortStableFunc(cmp)
+		snap := append([]keyed(nil), in...)
+		got, err := ro.Collect(op(ro.FromSlice(in)))
+		c := c18Case{Op: "sort." + which, Inputs: []any{fmt.Sprint(in)}}
+		fail := func(class, msg string) {
+			rt.Report(t, rt.Failure{Property: "C18", Check: "lift", Op: "sort." + which, Class: class, Msg: msg, Case: c})
+		}
+		if err != nil || len(got) != len(in) {
+			fail("not-a-permutation", fmt.Sprintf("%d items in, %d out (%v)", len(in), len(got), err))
+			continue
+		}
+		seen := map[int]bool{}
+		for i, x := range got {
+			if seen[x.ID] || x.ID < 0 || x.ID >= n || in[x.ID] != x {
+				fail("not-a-permutation", fmt.Sprintf("output %v is not a permutation of the input", got))
+				break
 			}
-			snap := append([]keyed(nil), in...)
-			got, err := ro.Collect(op(ro.FromSlice(in)))
-			c := c18Case{Op: "sort." + which, Inputs: []any{fmt.Sprint(in)}}
-			fail := func(class, msg string) {
-				rt.Report(t, rt.Failure{Property: "C18", Check: "lift", Op: "sort." + which, Class: class, Msg: msg, Case: c})
+			seen[x.ID] = true
+			if i > 0 && got[i-1].K > x.K {
+				fail("not-sorted", fmt.Sprintf("output %v", got))
+				break
 			}
-			if err != nil || len(got) != len(in) {
-				fail("not-a-permutation", fmt.Sprintf("%d items in, %d out (%v)", len(in), len(got), err))
-				continue
-			}
-			seen := map[int]bool{}
-			for i, x := range got {
-				if seen[x.ID] || x.ID < 0 || x.ID >= n || in[x.ID] != x {
-					fail("not-a-permutation", fmt.Sprintf("output %v is not a permutation of the input", got))
-					break
-				}
-				seen[x.ID] = true
-				if i > 0 && got[i-1].K > x.K {
-					fail("not-sorted", fmt.Sprintf("output %v", got))
-					break
-				}
-				if which == "SortStableFunc" && i > 0 && got[i-1].K == x.K && got[i-1].ID > x.ID {
-					fail("not-stable", fmt.Sprintf("n=%d: items with equal key %d came out in the order %d, %d (input order is by id)", n, x.K, got[i-1].ID, x.ID))
-					break
-				}
-			}
-			if len(in) > 0 && !reflect.DeepEqual(snap, in) {
-				fail("input-modified", "the input slice was reordered")
+			if which == "SortStableFunc" && i > 0 && got[i-1].K == x.K && got[i-1].ID > x.ID {
+				fail("not-stable", fmt.Sprintf("n=%d: items with equal key %d came out in the order %d, %d (input order is by id)", n, x.K, got[i-1].ID, x.ID))
+				break
 			}
 		}
-		xs := rapid.SliceOfN(rapid.IntRange(-5, 5), 0, 30).Draw(t, "ints")
-		got, err := ro.Collect(rosort.Sort(func(a, b int) int { return a - b })(ro.Just(xs...)))
-		want := append([]int(nil), xs...)
-		sort.Ints(want)
-		if err != nil || !(len(got) == 0 && len(want) == 0) && !reflect.DeepEqual(got, want) {
-			rt.Report(t, rt.Failure{Property: "C18", Check: "lift", Op: "sort.Sort", Class: "not-sorted", Msg: fmt.Sprintf("%v -> %v", xs, got), Case: c18Case{Op: "sort.Sort", Inputs: []any{fmt.Sprint(xs)}}})
+		if len(in) > 0 && !reflect.DeepEqual(snap, in) {
+			fail("input-modified", "the input slice was reordered")
 		}
-		// an error of the source is forwarded, nothing emitted
-		_, err = ro.Collect(rosort.SortFunc(cmp)(ro.Throw[keyed](rt.Err(3))))
-		if rt.ErrID(err) != 3 {
-			rt.Report(t, rt.Failure{Property: "C18", Check: "lift", Op: "sort.SortFunc", Class: "error-differs-from-wrapped-function", Msg: fmt.Sprintf("source error became %v", err), Case: c18Case{Op: "sort.SortFunc"}})
-		}
-		rt.Case(caseKey("sort", n, keys, fmt.Sprint(in)), n > 12 && keys < n, "sort", func() any { return map[string]any{"n": n, "distinct_keys": keys} })
-	})
+	}
+	xs := rapid.SliceOfN(rapid.IntRange(-5, 5), 0, 30).Draw(t, "ints")
+	got, err := ro.Collect(rosort.Sort(func(a, b int) int { return a - b })(ro.Just(xs...)))
+	want := append([]int(nil), xs...)
+	sort.Ints(want)
+	if err != nil || !(len(got) == 0 && len(want) == 0) && !reflect.DeepEqual(got, want) {
+		rt.Report(t, rt.Failure{Property: "C18", Check: "lift", Op: "sort.Sort", Class: "not-sorted", Msg: fmt.Sprintf("%v -> %v", xs, got), Case: c18Case{Op: "sort.Sort", Inputs: []any{fmt.Sprint(xs)}}})
+	}
+	// an error of the source is forwarded, nothing emitted
+	_, err = ro.Collect(rosort.SortFunc(cmp)(ro.Throw[keyed](rt.Err(3))))
+	if rt.ErrID(err) != 3 {
+		rt.Report(t, rt.Failure{Property: "C18", Check: "lift", Op: "sort.SortFunc", Class: "error-differs-from-wrapped-function", Msg: fmt.Sprintf("source error became %v", err), Case: c18Case{Op: "sort.SortFunc"}})
+	}
+	rt.Case(caseKey("sort", n, keys, fmt.Sprint(in)), n > 12 && keys < n, "sort", func() any { return map[string]any{"n": n, "distinct_keys": keys} })
 }
 
 // ---- stdio readers / writers ------------------------------------------------------------------------------------------
@@ -770,121 +776,121 @@ func (r *scriptedReader) Read(p []byte) (int, error) {
 	return n, nil
 }
 
-func TestC18_Stdio(t *testing.T) {
-	rapid.Check(t, func(t *rapid.T) {
-		size := rapid.SampledFrom([]int{0, 1, 5, 1023, 1024, 1025, 2048, 3000, 4095, 4096, 4097, 9000, 65535, 65536, 66000, 140000}).Draw(t, "size")
-		data := make([]byte, size)
-		lineLen := rapid.SampledFrom([]int{0, 1, 7, 80, 4095, 4096, 4097, 70000}).Draw(t, "lineLen")
-		for i := range data {
-			data[i] = byte('a' + i%23)
-			if lineLen > 0 && i%lineLen == lineLen-1 {
-				data[i] = '\n'
+func TestC18_Stdio(t *testing.T) { rapid.Check(t, propC18Stdio) }
+
+func propC18Stdio(t *rapid.T) {
+	size := rapid.SampledFrom([]int{0, 1, 5, 1023, 1024, 1025, 2048, 3000, 4095, 4096, 4097, 9000, 65535, 65536, 66000, 140000}).Draw(t, "size")
+	data := make([]byte, size)
+	lineLen := rapid.SampledFrom([]int{0, 1, 7, 80, 4095, 4096, 4097, 70000}).Draw(t, "lineLen")
+	for i := range data {
+		data[i] = byte('a' + i%23)
+		if lineLen > 0 && i%lineLen == lineLen-1 {
+			data[i] = '\n'
+		}
+	}
+	sizes := rapid.SliceOfN(rapid.SampledFrom([]int{1, 2, 100, 1024, 5000}), 0, 3).Draw(t, "chunks")
+	withEOF := rapid.Bool().Draw(t, "dataWithEOF")
+	errAt := -1
+	if rapid.IntRange(0, 4).Draw(t, "fault") == 0 && size > 0 {
+		errAt = rapid.IntRange(0, size-1).Draw(t, "errAt")
+	}
+	c := c18Case{Op: "stdio", Params: []any{size, lineLen, sizes, withEOF, errAt}}
+	mk := func() *scriptedReader {
+		return &scriptedReader{data: append([]byte(nil), data...), sizes: sizes, withEOF: withEOF, errAt: errAt}
+	}
+	// NewIOReader: the concatenation of the chunks is the input (up to the fault)
+	{
+		rec := rt.NewRecorder[[]byte]()
+		var pan any
+		func() {
+			defer func() { pan = recover() }()
+			rostdio.NewIOReader(mk()).Subscribe(rec)
+		}()
+		fail := func(class, msg string) {
+			rt.Report(t, rt.Failure{Property: "C18", Check: "lift", Op: "stdio.NewIOReader", Class: class, Msg: msg, Case: c})
+		}
+		if pan != nil {
+			fail("panic-escaped", fmt.Sprint(pan))
+		}
+		var got []byte
+		for _, r := range rec.Recs() {
+			if r.K == 'N' {
+				got = append(got, r.V.([]byte)...) // snapshot taken at delivery
 			}
 		}
-		sizes := rapid.SliceOfN(rapid.SampledFrom([]int{1, 2, 100, 1024, 5000}), 0, 3).Draw(t, "chunks")
-		withEOF := rapid.Bool().Draw(t, "dataWithEOF")
-		errAt := -1
-		if rapid.IntRange(0, 4).Draw(t, "fault") == 0 && size > 0 {
-			errAt = rapid.IntRange(0, size-1).Draw(t, "errAt")
+		want := data
+		if errAt >= 0 {
+			want = data[:errAt]
 		}
-		c := c18Case{Op: "stdio", Params: []any{size, lineLen, sizes, withEOF, errAt}}
-		mk := func() *scriptedReader {
-			return &scriptedReader{data: append([]byte(nil), data...), sizes: sizes, withEOF: withEOF, errAt: errAt}
+		if !bytes.Equal(got, want) {
+			cl := "chunks-do-not-concatenate-to-input"
+			if withEOF && errAt < 0 && len(got) < len(want) {
+				cl = "data-returned-with-eof-dropped"
+			}
+			fail(cl, fmt.Sprintf("input of %d bytes (reader chunks %v, data+EOF together=%v, fault at %d): the chunks concatenate to %d bytes", len(want), sizes, withEOF, errAt, len(got)))
 		}
-		// NewIOReader: the concatenation of the chunks is the input (up to the fault)
-		{
-			rec := rt.NewRecorder[[]byte]()
-			var pan any
-			func() {
-				defer func() { pan = recover() }()
-				rostdio.NewIOReader(mk()).Subscribe(rec)
-			}()
-			fail := func(class, msg string) {
-				rt.Report(t, rt.Failure{Property: "C18", Check: "lift", Op: "stdio.NewIOReader", Class: class, Msg: msg, Case: c})
+		tr := rec.Trace()
+		if errAt >= 0 && (tr.End != 'E' || tr.Err.Error() != "reader-fault") || errAt < 0 && tr.End != 'C' {
+			fail("terminal-differs", fmt.Sprintf("ended %q (%v)", tr.End, tr.Err))
+		}
+		if m := rec.Mutated(); m != "" {
+			fail("delivered-value-modified", "a chunk handed to the observer was overwritten by a later read: "+trimTo(m, 160))
+		}
+	}
+	// NewIOReaderLine: concatenation == input with the line terminators removed
+	{
+		rec := rt.NewRecorder[[]byte]()
+		var pan any
+		func() {
+			defer func() { pan = recover() }()
+			rostdio.NewIOReaderLine(mk()).Subscribe(rec)
+		}()
+		fail := func(class, msg string) {
+			rt.Report(t, rt.Failure{Property: "C18", Check: "lift", Op: "stdio.NewIOReaderLine", Class: class, Msg: msg, Case: c})
+		}
+		if pan != nil {
+			fail("panic-escaped", fmt.Sprint(pan))
+		}
+		var got []byte
+		for _, r := range rec.Recs() {
+			if r.K == 'N' {
+				got = append(got, r.V.([]byte)...)
 			}
-			if pan != nil {
-				fail("panic-escaped", fmt.Sprint(pan))
-			}
-			var got []byte
-			for _, r := range rec.Recs() {
-				if r.K == 'N' {
-					got = append(got, r.V.([]byte)...) // snapshot taken at delivery
-				}
-			}
-			want := data
-			if errAt >= 0 {
-				want = data[:errAt]
-			}
+		}
+		src := data
+		if errAt >= 0 {
+			src = data[:errAt]
+		}
+		want := bytes.ReplaceAll(src, []byte("\n"), nil)
+		tr := rec.Trace()
+		if errAt < 0 {
 			if !bytes.Equal(got, want) {
-				cl := "chunks-do-not-concatenate-to-input"
-				if withEOF && errAt < 0 && len(got) < len(want) {
-					cl = "data-returned-with-eof-dropped"
-				}
-				fail(cl, fmt.Sprintf("input of %d bytes (reader chunks %v, data+EOF together=%v, fault at %d): the chunks concatenate to %d bytes", len(want), sizes, withEOF, errAt, len(got)))
+				fail("chunks-do-not-concatenate-to-input", fmt.Sprintf("input of %d bytes with lines of %d: pieces concatenate to %d bytes, expected %d", len(src), lineLen, len(got), len(want)))
 			}
-			tr := rec.Trace()
-			if errAt >= 0 && (tr.End != 'E' || tr.Err.Error() != "reader-fault") || errAt < 0 && tr.End != 'C' {
-				fail("terminal-differs", fmt.Sprintf("ended %q (%v)", tr.End, tr.Err))
+			if tr.End != 'C' {
+				fail("terminal-differs", fmt.Sprintf("valid input of %d bytes (line length %d) ended %q (%v)", size, lineLen, tr.End, tr.Err))
 			}
-			if m := rec.Mutated(); m != "" {
-				fail("delivered-value-modified", "a chunk handed to the observer was overwritten by a later read: "+trimTo(m, 160))
-			}
+		} else if !bytes.HasPrefix(want, got) || tr.End != 'E' {
+			fail("chunks-do-not-concatenate-to-input", fmt.Sprintf("fault at %d: pieces are not a prefix of the input / ending %q", errAt, tr.End))
 		}
-		// NewIOReaderLine: concatenation == input with the line terminators removed
-		{
-			rec := rt.NewRecorder[[]byte]()
-			var pan any
-			func() {
-				defer func() { pan = recover() }()
-				rostdio.NewIOReaderLine(mk()).Subscribe(rec)
-			}()
-			fail := func(class, msg string) {
-				rt.Report(t, rt.Failure{Property: "C18", Check: "lift", Op: "stdio.NewIOReaderLine", Class: class, Msg: msg, Case: c})
-			}
-			if pan != nil {
-				fail("panic-escaped", fmt.Sprint(pan))
-			}
-			var got []byte
-			for _, r := range rec.Recs() {
-				if r.K == 'N' {
-					got = append(got, r.V.([]byte)...)
-				}
-			}
-			src := data
-			if errAt >= 0 {
-				src = data[:errAt]
-			}
-			want := bytes.ReplaceAll(src, []byte("\n"), nil)
-			tr := rec.Trace()
-			if errAt < 0 {
-				if !bytes.Equal(got, want) {
-					fail("chunks-do-not-concatenate-to-input", fmt.Sprintf("input of %d bytes with lines of %d: pieces concatenate to %d bytes, expected %d", len(src), lineLen, len(got), len(want)))
-				}
-				if tr.End != 'C' {
-					fail("terminal-differs", fmt.Sprintf("valid input of %d bytes (line length %d) ended %q (%v)", size, lineLen, tr.End, tr.Err))
-				}
-			} else if !bytes.HasPrefix(want, got) || tr.End != 'E' {
-				fail("chunks-do-not-concatenate-to-input", fmt.Sprintf("fault at %d: pieces are not a prefix of the input / ending %q", errAt, tr.End))
-			}
-			if m := rec.Mutated(); m != "" {
-				fail("delivered-value-modified", trimTo(m, 160))
-			}
+		if m := rec.Mutated(); m != "" {
+			fail("delivered-value-modified", trimTo(m, 160))
 		}
-		// NewIOWriter: what reaches the writer is the concatenation of the items, counts are exact
-		{
-			var buf bytes.Buffer
-			pieces := [][]byte{data[:size/3], data[size/3 : size/2], data[size/2:]}
-			counts, err := ro.Collect(rostdio.NewIOWriter(&buf)(ro.Just(pieces...)))
-			total := 0
-			for _, n := range counts {
-				total += n
-			}
-			if err != nil || !bytes.Equal(buf.Bytes(), data) || total != len(data) {
-				rt.Report(t, rt.Failure{Property: "C18", Check: "lift", Op: "stdio.NewIOWriter", Class: "chunks-do-not-concatenate-to-input", Msg: fmt.Sprintf("wrote %d bytes in 3 items: writer holds %d, counts %v (%v)", len(data), buf.Len(), counts, err), Case: c})
-			}
+	}
+	// NewIOWriter: what reaches the writer is the concatenation of the items, counts are exact
+	{
+		var buf bytes.Buffer
+		pieces := [][]byte{data[:size/3], data[size/3 : size/2], data[size/2:]}
+		counts, err := ro.Collect(rostdio.NewIOWriter(&buf)(ro.Just(pieces...)))
+		total := 0
+		for _, n := range counts {
+			total += n
 		}
-		rt.Case(caseKey("stdio", size, lineLen, sizes, withEOF, errAt), size >= 1024 || errAt >= 0 || withEOF, "stdio", func() any { return c })
-	})
+		if err != nil || !bytes.Equal(buf.Bytes(), data) || total != len(data) {
+			rt.Report(t, rt.Failure{Property: "C18", Check: "lift", Op: "stdio.NewIOWriter", Class: "chunks-do-not-concatenate-to-input", Msg: fmt.Sprintf("wrote %d bytes in 3 items: writer holds %d, counts %v (%v)", len(data), buf.Len(), counts, err), Case: c})
+		}
+	}
+	rt.Case(caseKey("stdio", size, lineLen, sizes, withEOF, errAt), size >= 1024 || errAt >= 0 || withEOF, "stdio", func() any { return c })
 }
 
 func trimTo(s string, n int) string {
